@@ -3,6 +3,7 @@ import SMV.Lemmas.DeclEquiv
 import SMV.Lemmas.DeclAllowed
 import SMV.Lemmas.DeclStyles
 import SMV.Lemmas.DeclAny4
+import SMV.Lemmas.DeclDeco
 /-!
 # C15 — every declaration style of the same machine yields the same machine
 
@@ -22,7 +23,8 @@ before/on/after). Theorems:
 * `C15_allowed`          … and allow the same events in every state;
 * `C15_rewrite_anywhere` the style rewrites that are equalities of elaboration — (a) `to`/`from_`,
                          (b) multi-target/multi-source vs `|`, (c) `itself`, (d) spellings of
-                         `event=`, (g) `States({...})`/`States.from_enum` — may be applied in any
+                         `event=`, (e) decorator-declared event vs assignment with `on=`,
+                         (g) `States({...})`/`States.from_enum` — may be applied in any
                          context: under `|`, in any statement kind, between any statements, in any
                          class of an inheritance chain;
 * `C15_any_partial`      (f) `e = t.from_.any(kw)` ≈ `e = t.from_(s₁,…,sₖ, kw)` after any class body;
@@ -33,9 +35,9 @@ before/on/after). Theorems:
 
 Not proved in general (only machine-checked on the instances below, `*_instance`, and exercised by
 the correspondence): (d') one list assigned to two attributes vs `event="e1 e2"`; (e) `e = T` vs
-`Event(T)` vs placeholder `Event(name=…)` + `event=e` vs decorator; (h) base class + subclass vs
-one flat class; and (f) with further statements after the `any()` statement (needs an
-index-shifting simulation of the rest of the body).
+`Event(T)` vs placeholder `Event(name=…)` + `event=e`; (h) base class + subclass vs one flat class;
+and (f) with transition-creating statements after the `any()` statement (needs an index-shifting
+simulation of the rest of the body).
 -/
 namespace SMV
 open SMV.Decl
@@ -93,14 +95,18 @@ inductive SRule : List Stmt → List Stmt → Prop
   | states_dict (ss : List SDecl) : SRule [.statesDict ss] (ss.map .state)
   | states_enum (ms : List (Name × Val)) (i : Name) (fs : List Name) :
       SRule [.statesEnum ms i fs] ((enumStates ms i fs).map .state)
+  /-- (e) `@T` / `def f(self): body` ↔ `f = T'`, `T'` = `T` with `body` appended to every `on=` -/
+  | decorator (e : TExpr) (f : Name) (cb : CbId) (he : e.fresh cb) :
+      SRule [.decorated e f cb] [.assign f (e.withOn cb)]
 
 theorem SRule.sound {s s' : List Stmt} (r : SRule s s') : Stmts.Eqv s s' := by
   cases r with
   | texpr S r => exact S.congr r.sound
   | states_dict ss => exact statesDict_eq ss
   | states_enum ms i fs => exact statesEnum_eq ms i fs
+  | decorator e f cb he => exact decorated_eq e f cb he
 
-/-- **C15 (a)(b)(c)(d)(g), with full congruence.** A style rewrite applied to any statement(s) of any
+/-- **C15 (a)(b)(c)(d)(e-decorator)(g), with full congruence.** A style rewrite applied to any statement(s) of any
 class of an inheritance chain — between arbitrary statements `p`, `q`, below arbitrary base classes
 `pre`, above arbitrary subclasses `post` — does not change the elaborated class at all. -/
 theorem C15_rewrite_anywhere {s s' : List Stmt} (r : SRule s s') (p q : List Stmt)
@@ -200,6 +206,11 @@ example : elabProg [body, [.decorated (.or (.to 1 [0, 2] nokw) (.ref go)) x 5]] 
     elabProg [body, [.decorated (.or (.or (.to 1 [0] nokw) (.to 1 [2] nokw)) (.ref go)) x 5]] :=
   C15_rewrite_anywhere (.texpr (.decorated (.orL .hole (.ref go)) x 5) (.multi_target 1 [0] [2] nokw))
     [] [] [body] []
+
+/-- non-vacuity of the decorator rule -/
+example : SRule [.decorated (.or (.to 1 [2] guarded) (.from_ 0 [1] nokw)) stop 9]
+    [.assign stop (.or (.to 1 [2] { guarded with on := [2, 9] }) (.from_ 0 [1] { nokw with on := [9] }))] :=
+  .decorator _ stop 9 ⟨by show 9 ∉ [2]; decide, by show 9 ∉ []; decide⟩
 
 /-- non-vacuity of the `event=` rule: `"go x"` ↔ `[Event("go"), "x"]` -/
 example : TRule (.to 0 [1] { nokw with event := [.str [go, x]] })
